@@ -390,7 +390,7 @@ class Inliner:
     def is_new(self, h) -> bool:
         return h.where not in self.reference
 
-    def _callee(self, fi, call: ast.Call):
+    def _callee(self, fi, call: ast.Call, generator: bool = False):
         try:
             cands = self.model.resolve_call(fi, call)
         except Exception:
@@ -399,7 +399,7 @@ class Inliner:
         if len(cands) != 1:
             return None
         h = cands[0]
-        if h is fi or h.kind in ("property", "setter") or _has(h.node, (ast.Yield, ast.YieldFrom)):
+        if h is fi or h.kind in ("property", "setter") or (_has(h.node, (ast.Yield, ast.YieldFrom)) != generator):
             return None
         # a decorated helper is not its body (a memoising decorator adds process-wide state): only the method kinds are plain
         for d in h.node.decorator_list:
@@ -473,6 +473,143 @@ class Inliner:
             ast.copy_location(s_, st)
             ast.fix_missing_locations(s_)
         return pre + [st]
+
+    # -- generators --------------------------------------------------------------------------------------------------
+    def comp_over_generator(self, fi, st: ast.stmt) -> Optional[list]:
+        """``v = [e for x in gen(...) if c]`` (gen a new generator helper)  ->  ``v = []`` ; ``for x in gen(...): if c: v.append(e)``"""
+        if isinstance(st, ast.AnnAssign) and st.value is not None and isinstance(st.target, ast.Name):
+            tgt, val = st.target, st.value
+        elif isinstance(st, ast.Assign) and len(st.targets) == 1 and isinstance(st.targets[0], ast.Name):
+            tgt, val = st.targets[0], st.value
+        else:
+            return None
+        if not (isinstance(val, ast.ListComp) and len(val.generators) == 1 and isinstance(val.generators[0].iter, ast.Call)
+                and self._callee(fi, val.generators[0].iter, generator=True) is not None):
+            return None
+        g = val.generators[0]
+        if any(isinstance(x, ast.Name) and x.id == tgt.id for x in ast.walk(val)):
+            return None
+        app: ast.stmt = ast.Expr(value=ast.Call(func=ast.Attribute(value=ast.Name(id=tgt.id, ctx=ast.Load()), attr="append", ctx=ast.Load()),
+                                               args=[val.elt], keywords=[]))
+        for c in reversed(g.ifs):
+            app = ast.If(test=c, body=[app], orelse=[])
+        init = ast.Assign(targets=[ast.Name(id=tgt.id, ctx=ast.Store())], value=ast.List(elts=[], ctx=ast.Load()), lineno=st.lineno)
+        loop = ast.For(target=g.target, iter=g.iter, body=[app], orelse=[], lineno=st.lineno)
+        for s_ in (init, loop):
+            ast.copy_location(s_, st)
+            ast.fix_missing_locations(s_)
+        return [init, loop]
+
+    def gen_inline(self, fi, st: ast.stmt) -> Optional[list]:
+        """``for x in gen(args): BODY`` with gen a new generator helper whose yields are plain ``yield e`` statements: the
+        helper's body with every ``yield e`` replaced by ``x = e`` ; BODY (BODY has no break / continue of its own: those would
+        have to leave / resume the generator)"""
+        if not (isinstance(st, ast.For) and not st.orelse and isinstance(st.iter, ast.Call)):
+            return None
+        h = self._callee(fi, st.iter, generator=True)
+        if h is None:
+            return None
+        body = _body(h.node)
+        yields = [x for s_ in body for x in ast.walk(s_) if isinstance(x, (ast.Yield, ast.YieldFrom))]
+        if any(isinstance(y, ast.YieldFrom) or y.value is None for y in yields) or not (1 <= len(yields) <= 2):
+            return None
+        # yields are statements of their own, outside try / with / nested functions; the generator does not return
+        ok = [True]
+        n_stmt_yields = [0]
+
+        def scan(blk):
+            for s_ in blk:
+                if isinstance(s_, ast.Expr) and isinstance(s_.value, ast.Yield):
+                    n_stmt_yields[0] += 1
+                    continue
+                if isinstance(s_, (ast.Try, ast.With, ast.AsyncWith, ast.FunctionDef, ast.AsyncFunctionDef, ast.ClassDef, ast.Return, ast.Global, ast.Nonlocal)):
+                    if _has(s_, (ast.Yield, ast.Return)) or isinstance(s_, (ast.Return, ast.Global, ast.Nonlocal)):
+                        ok[0] = False
+                    continue
+                for fld in ("body", "orelse"):
+                    b = getattr(s_, fld, None)
+                    if isinstance(b, list) and b and isinstance(b[0], ast.stmt):
+                        scan(b)
+        scan(body)
+        if not ok[0] or n_stmt_yields[0] != len(yields):
+            return None
+
+        def own_level_jump(blk):
+            for s_ in blk:
+                if isinstance(s_, (ast.Break, ast.Continue)):
+                    return True
+                if isinstance(s_, (ast.For, ast.While, ast.AsyncFor, ast.FunctionDef, ast.AsyncFunctionDef, ast.ClassDef)):
+                    continue
+                for fld in ("body", "orelse", "finalbody"):
+                    b = getattr(s_, fld, None)
+                    if isinstance(b, list) and b and isinstance(b[0], ast.stmt) and own_level_jump(b):
+                        return True
+                for hd in getattr(s_, "handlers", []) or []:
+                    if own_level_jump(hd.body):
+                        return True
+            return False
+        if own_level_jump(st.body):
+            return None
+        mp = _bind(h, st.iter, self._receiver(st.iter))
+        if mp is None:
+            return None
+        self.counter += 1
+        tag = f"__h{self.counter}"
+        stored = {x.id for s_ in body for x in ast.walk(s_) if isinstance(x, ast.Name) and isinstance(x.ctx, ast.Store)}
+        rename = {n: n + tag for n in stored if n not in mp}
+        pre: list = []
+        mapping = {}
+        for p_, v in mp.items():
+            if _is_simple(v) and p_ not in stored:
+                mapping[p_] = v
+            else:
+                tmp = p_ + tag
+                pre.append(ast.Assign(targets=[ast.Name(id=tmp, ctx=ast.Store())], value=copy.deepcopy(v), lineno=st.lineno))
+                rename[p_] = tmp
+        loop_target, loop_body = st.target, st.body
+        # every yield hands out the same local of the helper: that local *is* the loop variable (no alias 'x = r__h1' is left
+        # behind), provided the loop variable is not read outside the loop body
+        same_local = None
+        if isinstance(loop_target, ast.Name) and all(isinstance(y.value, ast.Name) for y in yields) and len({y.value.id for y in yields}) == 1:
+            n_ = yields[0].value.id
+            inside = {id(x) for b in loop_body for x in ast.walk(b)}
+            # reads under another binder of the same name (a later loop over it, a comprehension's own variable) are not reads of ours
+            for other in ast.walk(fi.node):
+                if other is not st and isinstance(other, (ast.For, ast.AsyncFor)) and isinstance(other.target, ast.Name) and other.target.id == loop_target.id:
+                    inside |= {id(x) for b in other.body for x in ast.walk(b)}
+                elif isinstance(other, (ast.ListComp, ast.SetComp, ast.DictComp, ast.GeneratorExp)) and \
+                        any(isinstance(t, ast.Name) and t.id == loop_target.id for g_ in other.generators for t in ast.walk(g_.target)):
+                    inside |= {id(x) for x in ast.walk(other)}
+            enclosing = {id(x) for anc in ast.walk(fi.node) if isinstance(anc, (ast.For, ast.AsyncFor, ast.While)) and anc is not st
+                         and any(y is st for y in ast.walk(anc)) for x in ast.walk(anc)}
+            end = getattr(st, "end_lineno", None) or st.lineno
+            read_outside = any(isinstance(x, ast.Name) and x.id == loop_target.id and isinstance(x.ctx, ast.Load) and id(x) not in inside
+                               and (getattr(x, "lineno", 0) > end or id(x) in enclosing)
+                               for x in ast.walk(fi.node))
+            used_in_helper = any(isinstance(x, ast.Name) and x.id == loop_target.id for s_ in body for x in ast.walk(s_)) and n_ != loop_target.id
+            if n_ in rename and not read_outside and not used_in_helper:
+                rename[n_] = loop_target.id
+                same_local = n_
+        sub = _Subst(mapping, rename)
+        new_body = [sub.visit(copy.deepcopy(s_)) for s_ in body]
+
+        class Y(ast.NodeTransformer):
+            def visit_Expr(self_, node):
+                if isinstance(node.value, ast.Yield):
+                    if same_local is not None:
+                        return [copy.deepcopy(b) for b in loop_body]
+                    bind = ast.Assign(targets=[copy.deepcopy(loop_target)], value=node.value.value, lineno=node.lineno)
+                    return [bind] + [copy.deepcopy(b) for b in loop_body]
+                return node
+
+            def visit_FunctionDef(self_, node):
+                return node
+        out = pre + [r for s_ in new_body for r in (lambda v_: v_ if isinstance(v_, list) else [v_])(Y().visit(s_))]
+        for s_ in out:
+            ast.copy_location(s_, st)
+            ast.fix_missing_locations(s_)
+        self.inlined_sites[h.where] = self.inlined_sites.get(h.where, 0) + 1
+        return out
 
     def stmt_inline(self, fi, st: ast.stmt) -> Optional[list]:
         call = None
@@ -566,6 +703,16 @@ class Inliner:
                                 nonlocal changed
                                 changed = True
                                 work = hz + work
+                                continue
+                            cg = inl.comp_over_generator(fi, s)
+                            if cg is not None:
+                                changed = True
+                                work = cg + work
+                                continue
+                            rep = inl.gen_inline(fi, s)
+                            if rep is not None:
+                                changed = True
+                                work = rep + work
                                 continue
                             rep = inl.stmt_inline(fi, s)
                             if rep is not None:
